@@ -79,7 +79,21 @@ class NPProxy:
             conj.append(c)
         if not conj:
             return True
-        return bool(SymBool(z3.And(*conj)))
+        r = bool(SymBool(z3.And(*conj)))
+        if r and core.ENG is not None:
+            # within tolerance: is it exactly equal, or merely close?  (lets harnesses treat "close but not equal"
+            # paths - e.g. early termination of calibration - with banded instead of exact obligations)
+            exact = []
+            for x, y in zip(a.ravel(), b.ravel()):
+                if isinstance(x, float) or isinstance(y, float):
+                    continue
+                x2, y2 = core.lift(x), core.lift(y)
+                if x2.q != y2.q:
+                    c = core.cmp_zero(x2.q - y2.q, "eq")
+                    exact.append(c if not isinstance(c, bool) else z3.BoolVal(c))
+            if exact and not bool(SymBool(z3.And(*exact))):
+                core.ENG.tolerance_hits += 1
+        return r
 
     def isclose(self, a, b, rtol=1e-05, atol=1e-08, equal_nan=False):
         if not self._isobj(a, b):
